@@ -400,7 +400,10 @@ class Topology(ABC):
         :param name:
         :return:
         """
-        self.graph_model.remove_ns_with_cps_and_links(node_id=self._get_ns_by_name(name=name).node_id)
+        ns = self._get_ns_by_name(name=name)
+        # an interface of this service may itself be connected to (or peered with) another service
+        self._disconnect_interfaces(ns.interface_list)
+        self.graph_model.remove_ns_with_cps_and_links(node_id=ns.node_id)
 
     def _get_node_by_name(self, name: str) -> Node:
         """
